@@ -165,6 +165,9 @@ func c09CheckTReqResult(r *c09TReq, checkID bool, checkDeadline bool) error {
 	if r.err != nil && !errors.Is(r.err, ErrDNSTruncated) {
 		return nil // message alongside a real error is ignored by every caller
 	}
+	if r.err == nil && r.msg.Truncated {
+		return fmt.Errorf("%s: a TC=1 upstream reply (%d records) was returned as a complete answer instead of ErrDNSTruncated, so it would be cached and a tcp+udp upstream would never be retried over TCP", r, len(r.msg.Answer))
+	}
 	if err := c09CheckReply(r.msg, checkID, r.id, r.name, r.qtype); err != nil {
 		return fmt.Errorf("%s was handed an answer that is not its own: %v\n    answer: %s", r, err, strings.ReplaceAll(r.msg.String(), "\n", "\n    "))
 	}
@@ -366,8 +369,7 @@ func c09MakeDgram(t *rapid.T, reqMsg *dnsmessage.Msg, kind int) c09Dgram {
 	case c09SrvRight:
 		m = c09BuildAnswer(q, reqMsg.Id, rapid.IntRange(0, c09AnsKinds-1).Draw(t, "answerShape"))
 	case c09SrvTrunc:
-		m = c09BuildAnswer(q, reqMsg.Id, c09AnsEmpty)
-		m.Truncated = true
+		m = c09BuildTruncated(q, reqMsg.Id, rapid.IntRange(0, 2).Draw(t, "partialRecords"))
 	case c09SrvForeign:
 		m = c09BuildAnswer(c09OtherQuestion(t, q), reqMsg.Id, c09AnsAddr)
 	case c09SrvWrongID:
@@ -880,14 +882,12 @@ func c09TCPCase(t *rapid.T) {
 		}
 	}
 	check()
+	var badClose []string
 	nw.mu.Lock()
 	for _, c := range nw.conns {
 		c.mu.Lock()
 		if c.closeCalls != 1 {
-			nw.mu.Unlock()
-			cc := c.closeCalls
-			c.mu.Unlock()
-			fail("stream conn %d was closed %d times after the forwarder was closed (want exactly once)", c.id, cc)
+			badClose = append(badClose, fmt.Sprintf("stream conn %d was closed %d times after the forwarder was closed (want exactly once)", c.id, c.closeCalls))
 		}
 		c.mu.Unlock()
 	}
@@ -895,6 +895,9 @@ func c09TCPCase(t *rapid.T) {
 		classes["retry"] = true
 	}
 	nw.mu.Unlock()
+	if len(badClose) > 0 {
+		fail("%s", strings.Join(badClose, "; "))
+	}
 	nt := ""
 	if faulty {
 		nt = strings.Join(trace, "\n")
